@@ -9,6 +9,7 @@ import DosModel.Model.Schnorr
 import DosModel.Gen.Ed25519Sc
 import DosModel.Model.Ed25519Ge
 import DosModel.Model.SchnorrHist
+import DosModel.Model.Ed25519ScalarApi
 
 open Dos Dos.Ed25519 Dos.Schnorr
 
@@ -29,15 +30,8 @@ def msgOf (tok : String) : Bytes :=
 def zero32 : Bytes := List.replicate 32 0
 def one32 : Bytes := 1 :: List.replicate 31 0
 
-/-- scalar.Inv: square-and-multiply over the bits 255…0 of lMinus2, every step is scMul -/
-def scInv (a : Bytes) : Bytes := Id.run do
-  let mut res := one32
-  for j in [0:256] do
-    let i := 255 - j
-    res := Gen.Ed25519Sc.scMul shrI res res
-    if (Gen.Ed25519Sc.lMinus2 / 2 ^ i) % 2 = 1 then
-      res := Gen.Ed25519Sc.scMul shrI res a
-  return res
+/-- scalar.Inv: Model/Ed25519ScalarApi.lean (the 256 square / multiply rounds over the translated scMul) -/
+def scInv (a : Bytes) : Bytes := Ed25519.Api.inv a
 
 def verdict : Except VErr Unit → String
   | .ok _ => "ok"
